@@ -357,10 +357,11 @@ def obligations(tier, seed):
         obs.append(Obligation(id=f'norm-{t}', factory='real_conditions', params={'tname': t, 'dlen': dl, 'slen': sl, 'via': 'normalize'},
                               timeout=170 if q else 1500, group='normalize_merchant, engine path',
                               bounds=f'template {t} through normalize_merchant with the cached engine; description <= {dl}, constants <= {sl}'))
-    for t in list(_t.generated(8 if q else 120, seed)):
-        obs.append(Obligation(id=f'real-{t}', factory='real_conditions', params={'tname': t, 'dlen': dl, 'slen': sl, 'gseed': seed, 'refcheck': True},
-                              timeout=170 if q else 1500, group='real conditions (generated rule files)',
-                              bounds=f'generated rule file {t} (2-3 random rule blocks + the global variables they use, VERIF_SEED={seed}): description <= {dl}, constants <= {sl}'))
+    for t in list(_t.generated(8 if q else 60, seed)):
+        # thorough: many more generated files at the quick string bounds (breadth); the hand-written templates above get the longer strings (depth)
+        obs.append(Obligation(id=f'real-{t}', factory='real_conditions', params={'tname': t, 'dlen': 2, 'slen': 1, 'gseed': seed, 'refcheck': True},
+                              timeout=170 if q else 300, group='real conditions (generated rule files)',
+                              bounds=f'generated rule file {t} (2-3 random rule blocks + the global variables they use, VERIF_SEED={seed}): description <= 2, constants <= 1'))
     for path in ['engine', 'legacy']:
         obs.append(Obligation(id=f'unknown-{path}', factory='unknown_name', params={'path': path, 'dlen': 2 if q else 3}, timeout=170 if q else 1500,
                               group='Unknown fallback', bounds=f'description <= {2 if q else 3} chars over the alphabet (a,B,1,blank,-); two different amounts/dates/sources/fields'))
